@@ -105,7 +105,10 @@ func main() {
 			case x < 92:
 				all(sfx, "export", k)
 			case x < 96 && !moved:
-				// move every lease to a second store of each back-end by Export -> Import
+				// move every lease to a second store of each back-end the way the DHT hands keys off when a
+				// node leaves: RangeKeys(0,0) selects the keys (a key holding only a lease must be among them),
+				// then Export -> Import
+				all("", "range", "0", "0")
 				all("", "export", strings.Join(keys, ","))
 				for _, b := range kvh.Backends {
 					ex := env.Exec([]string{"export", b, strings.Join(keys, ",")})
